@@ -44,7 +44,9 @@ def main():
         return 0
     try:
         chk.run()
-    except Exception as e:
+    except (KeyboardInterrupt, SystemExit):
+        raise
+    except BaseException as e:      # ShimGap and the engine's control exceptions are BaseExceptions
         import traceback
         traceback.print_exc()
         chk.harness_errors.append('check crashed: %s: %s' % (type(e).__name__, e))
@@ -52,4 +54,13 @@ def main():
 
 
 if __name__ == '__main__':
-    sys.exit(main())
+    try:
+        code = main()
+    except SystemExit:
+        raise
+    except BaseException as e:      # anything the check itself did not turn into a verdict is a harness error, never exit 1
+        import traceback
+        traceback.print_exc()
+        print('HARNESS-ERROR %s: check could not run: %s: %s' % (sys.argv[1] if len(sys.argv) > 1 else '?', type(e).__name__, str(e)[:300]))
+        code = 3
+    sys.exit(code)
